@@ -124,6 +124,13 @@ def vectors(L, mode, real):
         k = np.arange(n)
         v = (np.sin(1.0 + (1.7 + w) * k) + 0.3) / (1.0 + 0.2 * k) + 1j * np.cos(0.3 + (2.3 - 0.4 * w) * k) / (1.0 + 0.1 * k)
         yield ("dense", (w,)), fin(v)
+    # a wide dynamic range inside ONE vector: two whole degrees carry only 1e-13 of the others
+    if n > 36:
+        k = np.arange(n)
+        v = (np.sin(1.0 + 1.7 * k) + 0.3) + 1j * np.cos(0.3 + 2.3 * k)
+        lsq = np.array([l for (l, m) in lms])
+        v = np.where((lsq == 5) | (lsq == min(9, lsq.max())), v * 1e-13, v)
+        yield ("wide-range", (0,)), fin(v)
     # decaying spectra (what shape functions look like): |c_lm| ~ 10^(-l/2) and 10^(-l)
     ls = np.array([l for (l, m) in lms], dtype=float)
     for w, rate in enumerate((0.5, 1.0)):
@@ -176,19 +183,19 @@ def job_worker(part, job):
             dN = float(np.max(np.abs(N1 - N0) / (np.abs(N0) + 1e-4 * math.sqrt(scale2) * 1e-9 + 1e-300)))
             dN = min(dN, float(np.abs(N1 - N0).max() / math.sqrt(scale2)) * 1e4) if not np.isfinite(dN) else dN
             part.dev("N_rel", dN)
-            if dN > 1e-9:
+            if not (dN <= 1e-9):
                 l_bad = int(np.argmax(np.abs(N1 - N0)))
                 part.fail("N-not-invariant:%s" % ("real" if real else "complex"), "N invariant of degree %d changes by %.3g (relative) under rotation %s for %s%s, L=%d"
                           % (l_bad, dN, "*".join(w), tag, idxs, L), case)
                 break
             dP = np.abs(cube(P1) - cube(P0)).max() / scale3 if len(P0) else 0.0
             part.dev("P_cubed_rel", dP)
-            if dP > 1e-9:
+            if not (dP <= 1e-9):
                 part.fail("P-not-invariant:%s" % ("real" if real else "complex"), "a P invariant (cubed) changes by %.3g (relative) under rotation %s for %s%s, L=%d"
                           % (dP, "*".join(w), tag, idxs, L), case)
                 break
             dS = np.abs(S1 - S0).max() / scale2
-            if dS > 1e-9:
+            if not (dS <= 1e-9):
                 part.fail("power-spectrum-not-invariant", "power spectrum changes by %.3g under rotation %s for %s%s, L=%d" % (dS, "*".join(w), tag, idxs, L), case)
                 break
             if real:
@@ -225,9 +232,32 @@ def job_worker(part, job):
                 dN = float(np.abs(Nb - Np).max() / nb)
                 dP = float(np.abs(cube(Pb) - cube(Pp)).max() / nb ** 3) if len(Pb) else 0.0
                 part.dev("band_limit_P_cubed", dP)
-                if dN > 1e-9 or dP > 1e-9:
+                if not (dN <= 1e-9) or not (dP <= 1e-9):
                     part.fail("band-limit-discontinuity", "L=%d, band limit %d: filling the empty top degrees with 1e-12 of the norm changes N by %.3g and P^3 by %.3g (relative): invariants of a "
                               "function stored above its band limit are not at the positions fixed by L" % (L, Lb, dN, dP), case)
+                    break
+        # homogeneity: every P^3 is trilinear and every N linear in the coefficients of one degree, so scaling degree l0 by s multiplies
+        # each invariant by s^k with k = how often l0 occurs in it (read off from s = 2); with s = 1e-13 - a degree that carries almost
+        # nothing next to the others - each invariant must still be 1e-13^k times its unscaled value, to relative accuracy
+        if tag.startswith("dense") and L >= 6:
+            lms_ = ylm.lm_complex(L)
+            for l0 in (2, 5):
+                part.tr(2)
+                sel_l = np.array([l == l0 for (l, m) in lms_])
+                N2, P2, _ = invariants_of(L, np.ascontiguousarray(np.where(sel_l, 2.0 * c, c)), sht)
+                Nw, Pw, _ = invariants_of(L, np.ascontiguousarray(np.where(sel_l, 1e-13 * c, c)), sht)
+                c0_, c2_, cw_ = cube(P0), cube(P2), cube(Pw)
+                big = np.abs(c0_) > 1e-6 * scale3
+                kk = np.rint(np.log2(np.abs(c2_[big]) / np.abs(c0_[big]))).astype(int)
+                case = {"kind": "vec", "L": L, "mode": mode, "real": real, "tag": tag, "idx": list(idxs), "word": ["homogeneity", str(l0)]}
+                if kk.size == 0 or kk.min() < 0 or kk.max() > 3 or np.abs(np.abs(c2_[big]) / np.abs(c0_[big]) - 2.0 ** kk).max() > 1e-9:
+                    part.fail("P-not-trilinear", "L=%d: doubling the coefficients of degree %d does not multiply every P^3 by 1, 2, 4 or 8" % (L, l0), case)
+                    break
+                rel = np.abs(cw_[big] - (1e-13 ** kk) * c0_[big]) / np.abs((1e-13 ** kk) * c0_[big])
+                part.dev("P_homogeneity_rel", float(rel.max()))
+                if not (rel.max() <= 1e-6) or not (abs(Nw[l0] - 1e-13 * N0[l0]) <= 1e-9 * 1e-13 * abs(N0[l0])):
+                    part.fail("P-not-homogeneous:%s" % ("real" if real else "complex"), "L=%d: with degree %d scaled to 1e-13 of its size, %d P invariant(s) are not 1e-13^k times their unscaled value (worst relative deviation %.3g): "
+                              "weak degrees are not treated like strong ones" % (L, l0, int((rel > 1e-6).sum()), float(rel.max())), case)
                     break
         part.outcome((tag, len(idxs), real))
     part.nontriv((L, mode, real))
